@@ -1468,4 +1468,6 @@ def run(run: Run):
     run.floor('C12.R5', 4)
     run.floor('C12.R6', 4)
     run.floor('C12.R7', 12)
+    from .common import shared_mechanisms as _shared
+    _shared(run, 'C12', 11, ['stored-values', 'areas', 'addresses', 'no-value-specialisation'])
     return INFO
